@@ -1050,6 +1050,12 @@ func (x *Exec) specAddr(e ast.Expr, sc *SpecScope, st *State) (*Pointer, types.T
 	case *ast.SelectorExpr:
 		// base is a pointer value?
 		if bp, bt, ok := x.specAddr(e.X, sc, st); ok {
+			if et, isPtr := derefType(bt); isPtr {
+				// the location holds a pointer: designate a field of the object it points to
+				if pv := x.load(st, bp, bt); pv != nil && pv.P != nil {
+					bp, bt = pv.P, et
+				}
+			}
 			p, ft := x.specFieldPtr(bp, bt, e.Sel.Name)
 			if ft == nil {
 				return nil, nil, false
